@@ -38,6 +38,10 @@ fn main() {
             let code = checks::run_check(&id, &tier, seed, jobs);
             std::process::exit(code);
         }
+        "top-seed" => {
+            let t0 = sys::now_s();
+            println!("{} ({:.2}s)", rng::top_of_range_seed(), sys::now_s() - t0);
+        }
         "replay" => {
             let path = args.get(2).cloned().unwrap_or_default();
             std::process::exit(checks::replay(&path));
